@@ -82,6 +82,8 @@ def main():
     for k in range(480 if thorough else 96):
         nm, p, f, meta = enginegen.decl_case(ck.rng, k)
         pairs.append(("p.patch", p, "a.go", f)); names.append(nm)
+    for nm, p, f, meta in enginegen.extra_pairs():
+        pairs.append(("p.patch", p, "a.go", f)); names.append(nm)
     res = enginecorr.run(pairs)
     nsites = 0
     for name, pair, o in zip(names, pairs, res):
